@@ -25,6 +25,7 @@ partial def Val.show : Val → String
 
 inductive Act
   | emit (tgt kind delay : Nat) (daemon : Bool) (hook : Nat)   -- hook = 0: none; h>0: completion hook h attached
+  | emitPast (tgt kind back : Nat) (daemon : Bool)             -- an event stamped `back` ns before now (clamped at 0)
   | cancel (kind : Nat)                     -- cancel the most recently created event of this kind
   | resolve (f : Nat) (v : Nat)
   | anyOf (f : Nat) (gs : List Nat)         -- slot f := any_of(gs…)
@@ -174,6 +175,7 @@ def enum {α} (l : List α) : List (Nat × α) := (List.range l.length).zip l
 
 def runAct (now : Nat) (e : Eff) : Act → Eff
   | .emit tgt kind delay daemon hook => e.push ⟨now + delay, tgt, kind, daemon, 0, 0⟩ hook
+  | .emitPast tgt kind back daemon => e.push ⟨now - back, tgt, kind, daemon, 0, 0⟩ 0
   | .crash x => { e with ps := { e.ps with crashed := x :: e.ps.crashed.filter (· != x) } }
   | .restore x => { e with ps := { e.ps with crashed := e.ps.crashed.filter (· != x) } }
   | .cancel kind =>
